@@ -178,6 +178,8 @@ def judge(ctx, pid, scn, events, prints, family="interop"):
                         if f[0] == "A":
                             kind = next((t["kind"] for t in s["doc"]["types"] if t["name"] == f[1]), "?")
                             c = c.replace("A/", "A/%s/" % kind, 1)
+                        if s["fmt"] == "openapi3" and f[0] == "P" and f[4] == "int" and f[5] == "1" and (shapes.get(p["t"]) or {}).get("formats"):
+                            c += "/item-format-written"
                         if shared_array_param(s["doc"], f):
                             c += "/array-parameter-name-shared-by-operations"
                         classes.setdefault(c, []).append(f)
